@@ -75,12 +75,38 @@ pub fn model(tier: Tier) -> Hist {
         assert!(act::apply(&w, &mut r3, &a).committed, "{:?}", a);
     }
     roots.push(("F3".to_string(), mk(r3)));
+    // F5 / F6: the liquidator (u1) holds the bank whose collateral it will seize and nothing in the debt bank, so
+    // the liquidation opens its debt-bank position before it looks for the collateral one; the two roots swap the
+    // roles of the two banks, so the new position's key lies above the existing one's in one and below it in the other
+    {
+        let mut r5 = r0.clone();
+        for a in [
+            Action::Deposit { u: 0, b: 0, amt: 500_000_000, up_to_limit: None },
+            Action::Borrow { u: 0, b: 1, amt: 2_000_000_000 },
+            Action::Deposit { u: 1, b: 0, amt: 5_000_000_000, up_to_limit: None },
+            Action::SetPrice { b: 1, num: 3, den: 1 },
+        ] {
+            assert!(act::apply(&w, &mut r5, &a).committed, "F5 {:?}", a);
+        }
+        roots.push(("F5".to_string(), mk(r5)));
+        let mut r6 = r0.clone();
+        for a in [
+            Action::Deposit { u: 0, b: 1, amt: 3_000_000_000, up_to_limit: None },
+            Action::Borrow { u: 0, b: 0, amt: 150_000_000 },
+            Action::Deposit { u: 1, b: 1, amt: 50_000_000_000, up_to_limit: None },
+            Action::SetPrice { b: 1, num: 1, den: 3 },
+        ] {
+            assert!(act::apply(&w, &mut r6, &a).committed, "F6 {:?}", a);
+        }
+        roots.push(("F6".to_string(), mk(r6)));
+    }
     // F4: u0 as a bankruptcy settlement leaves it: its positions (F1) stay, the account is disabled (forged flag)
     let mut r4 = r1.clone();
     world::edit_account(&mut r4, &w.users[0].account, |a| a.account_flags |= marginfi_type_crate::types::ACCOUNT_DISABLED);
     roots.push(("F4".to_string(), mk(r4)));
     let mut alpha = Alphabet::standard(vec![0, 1], if tier == Tier::Quick { vec![0, 1, 2, 3] } else { vec![0, 1, 2, 3, 4] });
     alpha.receivership = true;
+    alpha.liquidate_padded = true;
     alpha.accrue = false;
     alpha.collect = false;
     alpha.bankruptcy = false;
